@@ -795,7 +795,9 @@ class ExcelInPython:
         # с помощью найденного выше метода, если же не найден и метод, возвращаем "пустую ячейку"
         # (метод не вычисляется, если значение задано вручную: формула переопределенной ячейки ни на что не влияет)
         if cell_uid in self._arguments:
-            return self._arguments[cell_uid]
+            # an override without a value makes the cell blank
+            value = self._arguments[cell_uid]
+            return self.EmptyCell() if value is None else value
         return method(self) if method else self.EmptyCell()
 
     def exec_function_in(self, cell_uid: str):
